@@ -123,8 +123,8 @@ macro_rules! cat_own {
     )*};
 }
 
-cat_copy!(u8, u16, u32, u64, u128, usize, [u8; 3], [u16; 3], [u32; 3], [u64; 3], [u64; 16], Al16, Al32, P12, (), [u64; 0]);
-cat_own!(TokA8, TokB8, TokA3, TokA16, TokA64, TokAH, TokAZ, String, Box<str>, Vec<u32>, Box<TokA8>, Option<TokA8>);
+cat_copy!(bool, char, f64, i128, (u8, u32), u8, u16, u32, u64, u128, usize, [u8; 3], [u16; 3], [u32; 3], [u64; 3], [u64; 16], Al16, Al32, P12, (), [u64; 0]);
+cat_own!(Vec<String>, [TokA8; 2], TokA8, TokB8, TokA3, TokA16, TokA64, TokAH, TokAZ, String, Box<str>, Vec<u32>, Box<TokA8>, Option<TokA8>);
 
 macro_rules! catalogue {
     ($( ($key:expr, $t:ty, $path:expr, $copy:expr) ),* $(,)?) => {
@@ -187,6 +187,13 @@ catalogue! {
     ("al16", Al16, "simrt::tok::Al16", true),
     ("al32", Al32, "simrt::tok::Al32", true),
     ("p12", P12, "simrt::tok::P12", true),
+    ("bool", bool, "bool", true),
+    ("char", char, "char", true),
+    ("f64", f64, "f64", true),
+    ("i128", i128, "i128", true),
+    ("tup", (u8, u32), "(u8, u32)", true),
+    ("vecstr", Vec<String>, "Vec<String>", false),
+    ("tokarr", [TokA8; 2], "[simrt::tok::TokA8; 2]", false),
     ("unit", (), "()", true),
     ("u64x0", [u64; 0], "[u64; 0]", true),
     ("toka8", TokA8, "simrt::tok::TokA8", false),
@@ -301,10 +308,10 @@ impl Default for SwarmOpts {
     }
 }
 
-const PLAIN: &[&str] = &["u8", "u16", "u32", "u64", "u128", "usize", "u8x3", "u16x3", "u32x3", "u64x3", "al16", "p12", "u64x16", "al32"];
+const PLAIN: &[&str] = &["u8", "u16", "u32", "u64", "u128", "usize", "u8x3", "u16x3", "u32x3", "u64x3", "al16", "p12", "u64x16", "al32", "bool", "char", "f64", "i128", "tup"];
 const ZSTS: &[&str] = &["unit", "u64x0", "tokaz"];
 const TOKENS: &[&str] = &["toka8", "tokb8", "toka3", "toka16", "toka64", "tokah"];
-const HEAP: &[&str] = &["string", "vecu32", "boxtok", "opttok", "boxstr"];
+const HEAP: &[&str] = &["string", "vecu32", "boxtok", "opttok", "boxstr", "vecstr", "tokarr"];
 
 /// One definition history drawn from the PRNG (swarm style: the type mix, the strategy mix, the
 /// sizes and the fragment selection are themselves drawn per definition).
@@ -515,6 +522,8 @@ pub fn corpus() -> Vec<Plan> {
         p("many_variants", true, true, vec![add("toka8"), addu("u32"), close(Simple), add("string"), close(Simple), rm(0), add("u16"), close(Basic), add("tokb8"), rm(1), close(Simple), rm(2), add("vecu32"), close(Append), add("u8"), rm(3), close(Simple), rm(4), add("toka3"), close(Simple), rm(5), rm(6), add("u64"), close(Simple), add("toka16"), close(Simple)]),
         // a field aligned to 32 bytes (beyond u128 and beyond what malloc guarantees)
         p("over_aligned", true, true, vec![add("u8"), add("al32"), add("toka8"), close(Simple), rm(0), addu("al32"), add("string"), close(Simple), rm(1), add("toka16"), close(Simple)]),
+        // scalar kinds with invalid bit patterns, floats, a tuple with padding, nested generics, an array of tokens
+        p("odd_kinds", true, true, vec![addu("bool"), add("char"), addu("f64"), add("tokarr"), addu("tup"), add("vecstr"), close(Simple), rm(1), rm(3), addu("i128"), add("tokarr"), addu("char"), close(Simple), rm(5), add("vecstr"), addu("bool"), close(Simple)]),
         // zero-size only
         p("zst_only", true, true, vec![add("unit"), add("tokaz"), close(Simple), add("u64x0"), rm(0), close(Simple)]),
     ]
